@@ -34,6 +34,7 @@ def step (d : DState) (ws : List String) : DState × String :=
   | ["has", k] => match unhex k with
     | some k => (d, if has d.store k then "t" else "f")
     | _ => (d, "bad-op")
+  | ["compact", _, _] => (d, "ok")          -- maintenance: changes no content
   | ["iter", p, s] => match unhex p, unhex s with
     | some p, some s => (d, showKVs (iter d.store p s))
     | _, _ => (d, "bad-op")
